@@ -232,7 +232,7 @@ func checkC03(e *env) {
 func checkC06(e *env) {
 	r := e.res
 	r.Rule = snapRule + " C06 uses arbitrary vertex sequences (85 %) and valid polygons, up to 60 vertices per ring, 1-3 rings; plus function-level streams: kmp (kmpDeduplicate on adversarially repetitive rings over small alphabets, " +
-		"exhaustive over all rings of length <= 7 over a 4-point alphabet in the thorough tier) and split (cleanupNewRing with arbitrary flag sets); every call under recover and a 20 s watchdog; scaling: rings of 200..1600 vertices of two adversarial kinds, the time may grow at most 24x per doubling; " +
+		"exhaustive over all rings of length <= 7 over a 4-point alphabet in the thorough tier) and split (cleanupNewRing with arbitrary flag sets); every call under recover and a 20 s watchdog; snap-inside-extent: on every accepted built-in set a vertex inside the extent at half the reported deviation, just beyond it, and half a pixel and three pixels beyond it from the right and the top edge; scaling: rings of 200..1600 vertices of two adversarial kinds, the time may grow at most 24x per doubling; " +
 		"levels above 32 (WebMercatorQuad id >= 21) are probed separately and are the known finding F7."
 	initWindows()
 	e.runSnap(snapOpts{stream: "snap", n: e.n(15000, 800000), gen: e.anyGen(allWindows(), 60, 15), hook: func(c *snapCase, sr *snapResult, _ map[uint][]ring) {
@@ -290,6 +290,56 @@ func checkC06(e *env) {
 					Detail: fmt.Sprintf("the ring of half as many vertices took %v: the time grew by more than 24x for a doubling of the vertex count", prev)})
 			}
 			prev = best
+		}
+	}
+	// inside the extent, next to its right and top edges: the index covers 2^level pixels of an integer size, which falls short of the extent by the
+	// deviation the tool reports when the extent does not divide evenly; a vertex inside the extent must be snapped, not reported as outside the grid.
+	// (Known finding F16: within the deviation of the right/top edge it is reported as outside.)
+	for _, name := range acceptedBuiltins() {
+		gs := newReal(name, 0, false)
+		gs.levelDiff = uint(math.Log2(float64(gs.tms.TileMatrices[0].TileWidth))) + 4
+		bl, tr, err := gs.tms.MatrixBoundingBox(0)
+		if err != nil {
+			continue
+		}
+		top := 0
+		for id := range gs.tms.TileMatrices {
+			if id > top && uint(id)+gs.levelDiff <= 32 {
+				top = id
+			}
+		}
+		for _, id := range []int{0, top / 2, top} {
+			_, devUnits, _, derr := pointindex.DeviationStats(gs.tms, id)
+			if derr != nil {
+				continue
+			}
+			dev := math.Abs(devUnits)
+			pix := gs.tms.TileMatrices[id].CellSize / 16
+			ulp := 4 * (math.Nextafter(math.Abs(tr[0]), math.Inf(1)) - math.Abs(tr[0]))
+			for _, inset := range []float64{math.Max(dev/2, 1e-9+ulp), dev + 1e-6 + ulp, dev + pix/2, dev + 3*pix} {
+				for side := 0; side < 2; side++ {
+					ax, ay := bl[0]+(tr[0]-bl[0])/2, bl[1]+(tr[1]-bl[1])/2
+					v := [2]float64{tr[0] - inset, ay}
+					if side == 1 {
+						v = [2]float64{ax, tr[1] - inset}
+					}
+					if v[0] >= tr[0] || v[1] >= tr[1] {
+						continue // not representably inside
+					}
+					c := &snapCase{gs: gs, tmids: []int{id}, tag: "inside-next-to-the-far-edge", skipModel: true}
+					c.setPoly(geom.Polygon{{{ax, ay}, v, {ax + 7*pix, ay + 9*pix}}})
+					sr := c.runImpl()
+					op := fmt.Sprintf("%s id %d: triangle with a vertex %.3g inside the %s edge of the extent (reported deviation %.3g)", name, id, inset, []string{"right", "top"}[side], dev)
+					r.count("snap-inside-extent", op, true)
+					if sr.hang || sr.panicMsg != "" {
+						known := ""
+						if panicClass(sr.panicMsg) == "outside-grid" && inset <= dev+1e-9+ulp {
+							known = "F16"
+						}
+						r.violation(Violation{Oracle: "no-panic-for-in-grid-polygon", Op: op, Impl: sr.String(), Detail: sr.panicMsg + " | " + c.describe(), Known: known})
+					}
+				}
+			}
 		}
 	}
 	// function level: kmpDeduplicate / cleanupNewRing
